@@ -149,6 +149,34 @@ CHECKS.update({
         note='ids as canonical hex digit sequences (TLC ints are 32-bit); vmfault composite ids not permuted',
         design='5/C19'),
 })
+CHECKS.update({
+    'C09': dict(
+        technique='TLC model checking of Render_MC (soundness of differential labelling on an abstract renderer over '
+                  'every signature of arity <= 4); labelled renderings of every BSD syscall / Mach trap decoder '
+                  '(one-at-a-time variation of every START word, END word and lookup) validated by '
+                  'Render!PositionVerdict in TLC',
+        text='The position rule is decided per decoder on labels extracted from the code by differential probing; TLC '
+             'shows on the abstract renderer that these labels are judged "ok" exactly for position-faithful signatures.',
+        note='numeric formatting of 64-bit ints by Python trusted; in-domain arguments from the frozen audit; not all '
+             '2^256 argument tuples: distinct random 64-bit words + boundary values, each word varied alone',
+        design='5/C09'),
+    'C10': dict(
+        technique='TLC model checking of the serialize_result transcription (ResultOK for every error word, three '
+                  'negative controls); result texts of every BSD decoder x 112 error words parsed into parts and '
+                  'validated by Render_Val!ResultVerdict in TLC',
+        text='Precedence and END-only dependence are enumerated on the transcription and checked on every decoder for '
+             'every errno 1..106, unknown and huge codes, with dependency measurement by one-at-a-time variation.',
+        note='exempt list exactly the statement\'s; the errno NAME is judged by C18; quoted output paths in results ignored',
+        design='5/C10'),
+    'C18': dict(
+        technique='TLC model checking of Host_MC over DarwinTables.tla (host-independent rendering, negative control with '
+                  'host-indexed tables); decoders re-imported under four substituted host platforms, every number '
+                  'rendered, texts compared across hosts and names validated against the Darwin tables in TLC',
+        text='Host platforms are modelled by substituting the errno / signal / socket modules; all codes in range are '
+             'enumerated under each.',
+        note='Darwin constants transcribed from memory of XNU headers (only certain entries used)',
+        design='5/C18'),
+})
 PENDING = {}
 
 ALL = ['C%02d' % i for i in range(1, 21)]
